@@ -102,7 +102,10 @@ def analysisMaven (toks : List XTok) : Except String (List Dep) :=
 
 inductive Notation where
   | str (quote : Char) (paren : Bool) (closure : Bool) (text : String)   -- 'g:a:v' / "g:a:v" / ('g:a:v') / ("g:a:v") {…}
-  | other (what : String)                                                 -- map notation, project(..), fileTree(..), GString, …
+  | strs (paren : Bool) (texts : List String)                            -- several string notations in one statement: 'a:b', 'c:d'
+  | other (what : String)                                                 -- map notation, project(..), fileTree(..), GString, a string
+                                                                          -- without ':', and statements that are no entries at all
+                                                                          -- (def, assignment, if, nested block)
   deriving Repr, DecidableEq
 
 structure GStmt where
@@ -116,10 +119,13 @@ def convert (conf text : String) : Option Dep :=
   | g :: a :: _ => some { group := g, artifact := a, scope := conf }
   | _ => none
 
-def gradleDeps (stmts : List GStmt) : List Dep :=
-  stmts.filterMap fun s => match s.nota with
-    | .str _ _ _ t => convert s.conf t
-    | .other _ => none
+def stmtDeps (s : GStmt) : List Dep :=
+  match s.nota with
+  | .str _ _ _ t => (convert s.conf t).toList
+  | .strs _ ts => ts.filterMap (convert s.conf)
+  | .other _ => []
+
+def gradleDeps (stmts : List GStmt) : List Dep := stmts.flatMap stmtDeps
 
 /-! ### unused report -/
 
